@@ -54,3 +54,70 @@ def r_valist(prog, rep, rid, only=None, minimum=1):
                     rep.ok(rid, key, f.loc(line), "every path to %s(…, %s) starts the list afresh" % (x.get("fn"), v))
     if n < minimum:
         rep.broken_("rule=%s expected >=%d va_list hand-overs, found %d" % (rid, minimum, n))
+
+
+def r_stale_room(prog, rep, rid):
+    """The buffered writer keeps its fill level in `fd_aux.bi`; fdflush() writes the buffer out and resets it.  A local that was
+    computed from the fill level (the room that is left, a pointer to the free part) before a flush describes the buffer as it
+    was: using it after the flush formats a record into the few bytes that *were* free and advances the fill level by the full length."""
+    from ..facts import walk, strip_casts, lv, writes, calls
+    n = 0
+    fns = [f for f in prog.fns_in("fdprnt.h") if f.cfg]
+    # who resets / moves the fill level
+    movers = set()
+    level = None
+    for f in fns:
+        for b, i, x, line in f.cfg.all_elems():
+            if isinstance(x, dict):
+                for l, kind, nn in writes(x):
+                    if lv(l).endswith(".bi") and kind == "assign":
+                        movers.add(f.name)
+                        level = lv(l)
+    if level is None:
+        rep.broken_("rule=%s the fill level of the write buffer was not found in fdprnt.h" % rid)
+        return
+    for f in fns:
+        cfg = f.cfg
+        # locals defined from the fill level
+        deps = {}
+        for b, i, x, line in cfg.all_elems():
+            if isinstance(x, dict):
+                for l, kind, nn in writes(x):
+                    tl = strip_casts(l)
+                    rhs = nn.get("init") if kind == "decl" else (nn.get("r") if nn.get("k") == "bin" and nn["op"] == "=" else None)
+                    if tl.get("k") == "ref" and tl.get("dk") == "local" and rhs is not None and \
+                            any(q.get("k") == "mem" and lv(q) == level for q in walk(cfg.resolve(rhs))):
+                        deps.setdefault(tl["n"], []).append((b, i, line))
+        kills = [(b, i, line) for b, i, c, line in f.all_calls() if c.get("fn") in movers and c.get("fn") != f.name]
+        for v, defs in sorted(deps.items()):
+            n += 1
+            key = "%s/%s-not-used-across-a-flush" % (f.name, v)
+            bad = None
+            for kb, ki, kl in kills:
+                # is the kill after a definition, and a use after the kill, with no redefinition in between?
+                after_def = any((db == kb and di < ki) or (db != kb and kb in cfg.reach_from(db)) for db, di, dl in defs)
+                if not after_def:
+                    continue
+                for b, i, x, line in cfg.all_elems():
+                    if not isinstance(x, dict):
+                        continue
+                    if not ((b == kb and i > ki) or (b != kb and b in cfg.reach_from(kb))):
+                        continue
+                    uses = any(q.get("k") == "ref" and q.get("n") == v and q.get("dk") == "local" for q in walk(x))
+                    redefs = any(lv(l) == v and kind != "decl" for l, kind, nn in writes(x))
+                    if uses and not redefs:
+                        # a redefinition between the kill and this use saves it
+                        saved = any(((db == kb and di > ki) or (db != kb and db in cfg.reach_from(kb))) and
+                                    ((db == b and di < i) or (db != b and b in cfg.reach_from(db))) for db, di, dl in defs)
+                        if not saved:
+                            bad = (line, kl)
+                            break
+                if bad:
+                    break
+            if bad:
+                rep.fail(rid, key, f.loc(bad[0]), "`%s` is computed from the fill level of the write buffer, the buffer is flushed at line %s, and `%s` is used again "
+                         "afterwards: the retry formats into the room that was left *before* the flush — a record that straddles the 4096-byte "
+                         "buffer is cut off and stale bytes are written" % (v, bad[1], v))
+            else:
+                rep.ok(rid, key, f.loc(defs[0][2]), "`%s` is not used after a flush has moved the fill level" % v, nontrivial=False)
+    rep.ok(rid, "fdprnt/fill-level", "src/fdprnt.h", "%d locals derived from the fill level in %d functions; it is moved by %s" % (n, len(fns), ", ".join(sorted(movers))), nontrivial=False)
